@@ -221,7 +221,24 @@ func isScope(e sx.Sexp) bool {
 	return true
 }
 
+// shareMemo, when set, makes rvalOf build equal sub-terms ONCE: the same Deferred / list / map object then sits at several
+// places of the value (the implementation-layer model is a tree; for the code as it is sharing must not be observable)
+var shareMemo map[string]px.Value
+
 func rvalOf(e sx.Sexp) px.Value {
+	if shareMemo == nil || !e.IsList {
+		return rvalOf1(e)
+	}
+	k := e.String()
+	if v, ok := shareMemo[k]; ok {
+		return v
+	}
+	v := rvalOf1(e)
+	shareMemo[k] = v
+	return v
+}
+
+func rvalOf1(e sx.Sexp) px.Value {
 	a := e.Args()
 	switch e.Tag() {
 	case "a":
@@ -570,6 +587,19 @@ func execRes(c px.Context, args []sx.Sexp, implOnly bool) core.Result {
 			}
 		}
 		check(i)
+	}
+	// the same value with equal sub-terms built once (shared objects): the same answers, and it stays as it was
+	shareMemo = map[string]px.Value{}
+	sv2 := rvalOf(args[0])
+	shareMemo = nil
+	before := rsnap(sv2)
+	for i := range scopes {
+		if _, line := resolveOnce(c, sv2, rvalOf(args[i+1]).(px.Keyed)); line != outs[i] {
+			setFail("resolve-sharing", fmt.Sprintf("with equal sub-terms shared, resolution %d answers %s instead of %s", i, line, outs[i]))
+		}
+		if now := rsnap(sv2); now != before {
+			setFail("resolve-mutated.shared", fmt.Sprintf("resolution %d changed the value built with shared sub-terms: was %s now %s", i, before, now))
+		}
 	}
 	out := strings.Join(outs, " ; ") + " | v " + rwalkS(v)
 	for _, sc := range scopes {
